@@ -929,8 +929,10 @@ impl<R: Read> RdbReader<R> {
                             };
                             
                             // Check if we have enough remaining data for all fields
-                            if entry_idx + (field_count * 2) > remaining_count {
-                                break; // Not enough data for all field-value pairs
+                            // field_count comes from the file: the arithmetic must not overflow
+                            match field_count.checked_mul(2).and_then(|n| n.checked_add(entry_idx)) {
+                                Some(needed) if needed <= remaining_count => {}
+                                _ => break, // Not enough data for all field-value pairs
                             }
                             
                             // Read field-value pairs
